@@ -114,6 +114,39 @@ def run_impl(pulse, key, theta, a):
     return float(v1), float(v2), float(v3), kinds
 
 
+_DECOYS = []
+
+
+def interleaved_case(rng):
+    """one Integrator on a numerically integrated pulse serves a second request (other integrand, angle, duration) from another thread
+    while the first is inside quad (schedule forced from inside the pulse parametrization, qgv/interleave.py): the first request must
+    still return ITS integral, and so must a repetition served from the cache.  Returns (description, failure | None)."""
+    from quantum_gates._gates.integrator import Integrator
+    from qgv import interleave as IL
+    pulse, st = IL.hooked_pulse()
+    I = Integrator(pulse)
+    k1, k2 = rng.choice(KEYS), rng.choice(KEYS)
+    t1, t2 = rng.uniform(0.3, 6) * rng.choice((-1, 1)), rng.uniform(0.3, 6) * rng.choice((-1, 1))
+    a1, a2 = rng.choice((1.0, rng.uniform(0.3, 9))), rng.choice((1.0, rng.uniform(0.3, 9)))
+    desc = f"Integrator(user pulse).integrate({k1!r}, {t1!r}, {a1!r}) with integrate({k2!r}, {t2!r}, {a2!r}) served by the same object inside its quadrature"
+    st["armed"] = lambda: I.integrate(k2, t2, a2)
+    try:
+        v1 = float(I.integrate(k1, t1, a1))
+        v1c = float(I.integrate(k1, t1, a1))
+        v2c = float(I.integrate(k2, t2, a2))
+    except Exception as e:                                     # noqa
+        return desc, f"raised {type(e).__name__}: {e}"
+    if st["error"]:
+        return desc, f"the second request raised {st['error']}"
+    F = pulse.get_parametrization()
+    r1, r2 = reference(k1, F, t1, a1, []), reference(k2, F, t2, a2, [])
+    for what, v, r, a in (("the first request returned", v1, r1, a1), ("the first request repeated (cache) returned", v1c, r1, a1),
+                          ("the second request repeated (cache) returned", v2c, r2, a2)):
+        if not abs(v - r) <= max(REL_TOL * abs(r), ABS_TOL * a, 1e-9):
+            return desc, f"{what} {v!r}, its integral is {r!r}"
+    return desc, None
+
+
 def long_history_case(rng, n_distinct):
     """one Integrator (constant pulse, lookup branch: fast) answers n_distinct different requests, then the first 400 again: every
     repeated answer must be bit-identical to its first answer and to a fresh integrator's.  Returns (requests made, failure | None)."""
@@ -135,6 +168,11 @@ def long_history_case(rng, n_distinct):
 def judge(spec, key, theta, a, pulse=None):
     """the property statement evaluated on the real code; returns (failure text | None, record)"""
     pulse = pulse if pulse is not None else make_pulse(spec)
+    if spec["kind"] == "gaussian":
+        # another Gaussian pulse is constructed (and kept alive) before this one is used: pulse objects do not share anything
+        from quantum_gates._gates import pulse as P
+        _DECOYS.append(P.GaussianPulse(loc=0.3 if spec["loc"] != 0.3 else 0.6, scale=0.11))
+        del _DECOYS[:-3]
     F = pulse.get_parametrization()
     ref = reference(key, F, float(theta), float(a), breaks_of(spec))
     try:
@@ -172,6 +210,8 @@ def judge(spec, key, theta, a, pulse=None):
 def classify(spec, key, theta, a):
     """canonical class of a failing input (matched against known_findings.json)"""
     lookup = spec["kind"] in ("constant", "constant_user_lookup")
+    if "second request from another thread" in str(spec.get("name", "")):
+        return {"kind": "oracle", "branch": "numerical", "class": "interleaved requests on one integrator"}
     if lookup and theta == 0:
         return {"kind": "oracle", "branch": "lookup", "class": "theta == 0"}
     if not lookup and not is_constant(spec) and a != 1:
@@ -454,6 +494,15 @@ def main(ctx):
         spec0 = {"kind": "constant"}
         key0, th0, a0, text = lh[1]
         fails.append((spec0, key0, th0, a0, text, {"expected": None, "observed": None, "warnings": [], "history": lh[0]}))
+    n_il = 24 if ctx.thorough else 6
+    for _ in range(n_il):
+        desc, bad = interleaved_case(ctx.rng)
+        ctx.count()
+        if bad:
+            fails.append(({"kind": "user", "name": "hooked (30 x^2 (1-x)^2), second request from another thread inside the quadrature"},
+                          desc, 0.0, 1.0, bad, {"expected": None, "observed": None, "warnings": [], "interleaved": desc}))
+            break
+    cov["interleaved_requests_on_one_integrator"] = n_il
     for k in (1, len(CORPUS) + 3, len(cs) - 1):
         spec, key, theta, a, _ = cs[k]
         ctx.sample({"pulse": spec, "key": key, "theta": theta, "a": a, "integrate": run_impl(pulses[json.dumps(spec, sort_keys=True)], key, theta, a)[0]})
@@ -540,6 +589,13 @@ def replay(ctx, path):
     rp = json.load(open(path))["replay"]
     if "key" not in rp:
         print("replay names a broken obligation:", json.dumps(rp)[:600]); return 1
+    if rp.get("interleaved"):
+        import random
+        for sd in range(60):
+            desc, bad = interleaved_case(random.Random(sd))
+            if bad:
+                print(desc); print("oracle:", bad); return 1
+        print("interleaved requests on one integrator: oracle holds on 60 schedules"); return 0
     theta = rp["theta"]
     if rp.get("theta_repr") in ("0", "-0.0", "0.0"):
         theta = {"0": 0, "-0.0": -0.0, "0.0": 0.0}[rp["theta_repr"]]
